@@ -22,7 +22,21 @@ def exec_and_judge(wd, forests, nshards=14, tag="rt", sub="roundtrip"):
     if not forests:
         return [], []
     nshards = max(1, min(nshards, len(forests) // 40 + 1))
-    bounds = [(len(forests) * k // nshards, len(forests) * (k + 1) // nshards) for k in range(nshards)]
+    # contiguous shards of about equal WEIGHT (a forest of 16,000 symbols costs the judge what a thousand small ones do)
+    import json as _json
+    weights = [len(_json.dumps(f.get("forest", f), separators=(",", ":"))) + 200 for f in forests]
+    total = sum(weights)
+    cap = max(total / nshards, 1)
+    if max(weights) > cap:                      # a few very heavy forests: let them have shards of their own
+        cap = max(total / 14.0, 1)
+    bounds, lo, acc = [], 0, 0
+    for i, w in enumerate(weights):
+        if acc and acc + w > cap:
+            bounds.append((lo, i))
+            lo, acc = i, 0
+        acc += w
+    bounds.append((lo, len(forests)))
+    nshards = len(bounds)
 
     def job(k):
         lo, hi = bounds[k]
@@ -30,7 +44,7 @@ def exec_and_judge(wd, forests, nshards=14, tag="rt", sub="roundtrip"):
         core.write_ndjson(os.path.join(d, "forests.ndjson"), forests[lo:hi])
         core.run_harness(sub, os.path.join(d, "forests.ndjson"), os.path.join(d, "obs.ndjson"))
         core.tlc_eval(d, "Judge_RT", dict(ObsFile="obs.ndjson", ForestFile="forests.ndjson",
-                                          VerdictFile="verdict.ndjson"))
+                                          VerdictFile="verdict.ndjson"), timeout=3300, heap="6g")
         vs = core.read_ndjson(os.path.join(d, "verdict.ndjson"))
         obs = core.read_ndjson(os.path.join(d, "obs.ndjson"))
         if len(vs) != len(obs):
